@@ -534,7 +534,8 @@ def check(prop, tier):
         "property_id": prop, "tier": tier, "seed": int(os.environ.get("VERIF_SEED", "0") or 0), "level": level,
         "coverage": {
             "states": (sum(m["bfs_states"] for m in allm) or tot["distinct_observations"]),
-            "transitions": (tot["executions"] if any(m["bfs_states"] for m in allm) else tot["choice_points"]),
+            # every execution is at least the transition out of the initial state of its configuration; choice points passed come on top
+            "transitions": (tot["executions"] if any(m["bfs_states"] for m in allm) else tot["choice_points"] + tot["executions"]),
             "traces_validated_against_impl": tot["replay_checked"],
             "evaluations": tot["executions"], "distinct_nontrivial": tot["distinct_observations"],
             "rule": "one evaluation = one complete execution of the real library under one choice sequence (schedule of child steps, fault answers, "
